@@ -324,6 +324,100 @@ def check(model, rep, tier):
             '%s:function-object' % ub.site, 'key must be the (unbound) function '
             'object', {'returns': rets}, line=ub.node.lineno)
 
+  # only decisions that depend on (function, options) alone may be remembered
+  cc = model.func(API, 'converted_call')
+  cu = model.func(API, '_call_unconverted')
+  cup = cu.params()
+  ccp = cc.params()
+  keyed = {ccp[0], 'options'}      # f and options: the key of the negative cache
+  flag = cup[4] if len(cup) > 4 else None
+  dflt = cu.node.args.defaults[-1] if cu.node.args.defaults else None
+  caches_by_default = isinstance(dflt, ast.Constant) and dflt.value is True
+
+  def parents(root):
+    par = {}
+    for a in ast.walk(root):
+      for b in ast.iter_child_nodes(a):
+        par[b] = a
+    return par
+
+  # locals computed from f / options only
+  locals_ = {t.id for a in core.walk_no_nested(cc.node) if isinstance(a, ast.Assign)
+             for t in a.targets if isinstance(t, ast.Name)}
+  changed = True
+  while changed:
+    changed = False
+    for a in core.walk_no_nested(cc.node):
+      if isinstance(a, ast.Assign) and len(a.targets) == 1 and isinstance(
+          a.targets[0], ast.Name) and a.targets[0].id not in keyed:
+        roots = {n.id for n in ast.walk(a.value) if isinstance(n, ast.Name)}
+        ambient = any(isinstance(t, ast.Call) and not t.args and not t.keywords
+                      and not (isinstance(t.func, ast.Attribute) and {
+                          n.id for n in ast.walk(t.func.value)
+                          if isinstance(n, ast.Name)} & keyed)
+                      for t in ast.walk(a.value))
+        others = [x for x in core.walk_no_nested(cc.node) if isinstance(x, ast.Assign)
+                  and any(isinstance(t, ast.Name) and t.id == a.targets[0].id
+                          for t in x.targets)]
+        if not ambient and roots & keyed and not (
+            (roots & set(ccp)) - keyed) and not ((roots & locals_) - keyed) and all(
+                {n.id for n in ast.walk(o.value) if isinstance(n, ast.Name)} & keyed
+                for o in others):
+          keyed.add(a.targets[0].id)
+          changed = True
+  par = parents(cc.node)
+  ncalls = 0
+  for c in core.walk_no_nested(cc.node):
+    if not (isinstance(c, ast.Call) and core.dotted(c.func) == cu.name):
+      continue
+    ncalls += 1
+    upd = caches_by_default
+    if len(c.args) > 4:
+      upd = not (isinstance(c.args[4], ast.Constant) and c.args[4].value is False)
+    for k in c.keywords:
+      if k.arg == flag:
+        upd = not (isinstance(k.value, ast.Constant) and k.value.value is False)
+    # innermost guarding test
+    x = c
+    guard = None
+    while x in par:
+      y = par[x]
+      if isinstance(y, ast.If) and any(x is b for b in y.body):
+        guard = y
+        break
+      x = y
+    transient = []
+    if guard is not None:
+      for t in ast.walk(guard.test):
+        if isinstance(t, ast.Call):
+          roots = {n.id for a in list(t.args) + [k.value for k in t.keywords]
+                   for n in ast.walk(a) if isinstance(n, ast.Name)}
+          fr = t.func
+          while isinstance(fr, ast.Attribute):
+            fr = fr.value
+          if isinstance(fr, ast.Name) and fr.id in keyed:
+            continue          # a method of f / options
+          if isinstance(fr, ast.Call):
+            continue          # judged at the inner call
+          if not (roots & keyed):
+            transient.append(core.norm(t))
+        elif isinstance(t, ast.Name) and isinstance(t.ctx, ast.Load) and \
+            t.id in ccp and t.id not in keyed:
+          transient.append(t.id)
+    site = '%s:remembers-only-key-determined-decisions#%d' % (cc.site, ncalls)
+    rep.check(not (upd and transient), 'CACHE-ALLOWLIST', site,
+              'a call that runs the target unconverted and records it in the '
+              'negative cache is guarded by a condition that does not depend on '
+              '(function, options) alone: the transient decision is served to '
+              'every later request for that pair',
+              {'guard': core.norm(guard.test) if guard is not None else None,
+               'updates_cache': upd, 'not_determined_by_key': transient},
+              line=c.lineno,
+              witness='first call under do_not_convert / a DISABLED context, '
+              'second call of the same function outside it')
+  if ncalls < 5:
+    raise core.AnalysisError('converted_call: only %d _call_unconverted sites' % ncalls)
+
   # ---------------------------------------------------------------- CACHE-LOCKORDER
   locks = {}   # function -> set of lock names acquired directly
   for m in model.modules.values():
@@ -378,3 +472,8 @@ def check(model, rep, tier):
             witness='two threads converting while a third repairs linecache')
   rep.unit('lock acquisition sites', sum(len(l) for _, (f, l) in locks.items()))
   rep.unit('lock order edges', len(edges))
+
+  # ---------------------------------------------------------------- dependencies
+  rep.depends('C20', ['OPT-FIELDS', 'OPT-EQHASH', 'OPT-NORM'],
+              'the options value is the cache sub-key: it must compare and hash '
+              'over every field')
